@@ -226,7 +226,11 @@ impl KnowledgeGraphSnapshot {
         program: &str,
     ) -> Result<(Vec<Tuple>, HashMap<String, Vec<Tuple>>), String> {
         use crate::execution::TimingMode;
-        self.execute_with_rules_tuples_profiled_full(program, TimingMode::Off)
+        // The prover reads the derived data as the complete contents of every derived
+        // relation the answer depends on. Evaluate without magic sets: for a goal with
+        // constants they restrict a recursive relation to the demanded part and file it
+        // under an adorned name (`reach_bf`), which leaves the prover without the facts.
+        self.execute_with_rules_tuples_full(program, TimingMode::Off, false)
             .map(|(tuples, derived, _timing)| (tuples, derived))
     }
 
@@ -257,6 +261,24 @@ impl KnowledgeGraphSnapshot {
         ),
         String,
     > {
+        self.execute_with_rules_tuples_full(program, timing_mode, true)
+    }
+
+    /// [`Self::execute_with_rules_tuples_profiled_full`], with or without the magic sets
+    /// rewriting of a goal with constants.
+    fn execute_with_rules_tuples_full(
+        &self,
+        program: &str,
+        timing_mode: crate::execution::TimingMode,
+        magic_sets: bool,
+    ) -> Result<
+        (
+            Vec<Tuple>,
+            HashMap<String, Vec<Tuple>>,
+            Option<crate::execution::TimingBreakdown>,
+        ),
+        String,
+    > {
         let start = Instant::now();
         let combined = if self.rule_prefix.is_empty() {
             program.to_string()
@@ -269,6 +291,11 @@ impl KnowledgeGraphSnapshot {
         engine.set_max_result_rows(self.max_result_rows);
         engine.set_max_query_cost(self.max_query_cost);
         engine.set_timing_mode(timing_mode);
+        if !magic_sets {
+            let mut config = engine.config().clone();
+            config.enable_magic_sets = false;
+            engine.set_config(config);
+        }
         self.configure_hnsw(&mut engine);
 
         // Use shared input for zero-copy
